@@ -193,7 +193,7 @@ def verify_function(key, table, fields, monitor=None, timeout_ms=None, cex_fn=No
         pre_ctx = Ctx(ex, args, lambda f: st.field_arr(f), lambda f: st.field_arr(f), g_old, g_old,
                       V.VNone, z3.BoolVal(False), V.VNone, lambda n: args[n], st)
         for label, fn_req in con.requires:
-            st.assume(fn_req(pre_ctx))
+            st.assume(solve.close_free(fn_req(pre_ctx)))      # FREE! variables of a precondition are universally quantified
         if solve.check_sat(st.pc) != "sat":
             res.status, res.message = "error", "precondition is not satisfiable (vacuous contract)"
             return res
